@@ -602,7 +602,7 @@ impl Format for Mpq {
             rec.leaf_plain("MutableArchive::drop", || drop(m));
         }
         // thorough, 1-deviation classes: the whole-archive consumers (each opens the archive itself)
-        if crate::thorough() && !crate::LIGHT.load(std::sync::atomic::Ordering::Relaxed) {
+        if crate::heavy() {
             if let Some(pa) = rec.call("ParallelArchive::open", || wow_mpq::single_archive_parallel::ParallelArchive::open(&path)) {
                 let nm: Vec<&str> = names.iter().take(4).map(|s| s.as_str()).collect();
                 let _ = rec.leaf("ParallelArchive::extract_files_parallel", || pa.extract_files_parallel(&nm));
